@@ -272,7 +272,7 @@ pub fn iotrack_available() -> bool {
 fn power_case() -> impl Strategy<Value = PowerCase> {
 	// one history in five grows the index (key sets crowded into one index page, reindex steps),
 	// so that older index generations receive writes too
-	(prop_oneof![4 => crash_scenario(3, 4, 12, true, 40_000).boxed(), 1 => super::c09::scenario(10, 200).boxed()], any::<u64>()).prop_map(|(mut sc, sample_seed)| {
+	(prop_oneof![4 => crash_scenario(3, 4, 12, true, 40_000).boxed(), 1 => super::c09::scenario(9, 150).boxed()], any::<u64>()).prop_map(|(mut sc, sample_seed)| {
 		// the property is about power loss with the sync options on
 		sc.cfg.sync_data = true;
 		// one history in four ends with a worker failure (background-error state) followed by
@@ -607,11 +607,11 @@ pub fn run_thread_case(case: &ThreadCase, dir: &Path) -> CaseResult {
 
 fn run(ctx: &Ctx) {
 	let thorough = ctx.tier == "thorough";
-	let n = scaled(ctx, 56, 2_800);
-	if !ctx.run_prop_shrink("power", n, 40, power_case(), |c, dir| run_power_case(c, dir, if thorough { 120 } else { 30 }, 3)) {
+	let n = scaled(ctx, 32, 2_800);
+	if !ctx.run_prop_shrink("power", n, 40, power_case(), |c, dir| run_power_case(c, dir, if thorough { 120 } else { 16 }, 3)) {
 		return
 	}
-	let n = scaled(ctx, 160, 6_000);
+	let n = scaled(ctx, 96, 6_000);
 	if !ctx.run_prop_shrink(
 		"power-after-kill",
 		n,
